@@ -51,6 +51,7 @@ type event struct {
 	pub  mqttref.Packet // BPUB
 	pubs []mqttref.Packet // BBURST
 	ms   int            // ADV
+	sync bool           // CALLS: a CALL over the synchronous link (see link.syncOn)
 }
 
 type history struct {
@@ -274,6 +275,9 @@ func parseE(text string) (ev event, err error) {
 	ev.text = text
 	var arg string
 	ev.kind, arg, _ = strings.Cut(text, " ")
+	if ev.kind == "CALLS" {
+		ev.kind, ev.sync = "CALL", true
+	}
 	switch ev.kind {
 	case "CALL":
 		f := strings.Split(arg, " ")
@@ -433,6 +437,15 @@ type link struct {
 	lossless bool       // wind-down: deliver everything
 	held     bool       // BBURST: datagrams of the client are kept back ...
 	pending  [][]byte   // ... here, until release (in the order written)
+
+	// CALLS: the synchronous link. A Write of the client returns only after
+	// everything the datagram causes has settled: the gateway has handled it
+	// and the client's receive loop has handled the gateway's answers. This is
+	// the schedule "the peer is faster than the caller" (a slow socket write, a
+	// preempted caller): whatever the caller does after its send - arming a
+	// timer, storing a transaction - happens after the reply was handled.
+	syncOn  bool
+	blocked []chan struct{} // writers waiting to be let go (by the driver, at quiescence)
 }
 
 const (
@@ -450,7 +463,19 @@ func newLink(faultsC2G, faultsG2C string, tr *trace) *link {
 	// the session's ConnWithContext often coincide with transaction timers. Let
 	// the deadlines go first, always.
 	l.cl.EarlyDeadline, l.gw.EarlyDeadline = true, true
-	l.cl.OnWrite = func(b []byte) { l.transfer(c2g, l.gw, b, tr) }
+	l.cl.OnWrite = func(b []byte) {
+		l.transfer(c2g, l.gw, b, tr)
+		l.mu.Lock()
+		var ch chan struct{}
+		if l.syncOn {
+			ch = make(chan struct{})
+			l.blocked = append(l.blocked, ch)
+		}
+		l.mu.Unlock()
+		if ch != nil {
+			<-ch
+		}
+	}
 	l.gw.OnWrite = func(b []byte) { l.transfer(g2c, l.cl, b, tr) }
 	return l
 }
@@ -488,6 +513,26 @@ func (l *link) hold() {
 	l.mu.Lock()
 	l.held = true
 	l.mu.Unlock()
+}
+
+// setSync switches the synchronous link on or off.
+func (l *link) setSync(on bool) {
+	l.mu.Lock()
+	l.syncOn = on
+	l.mu.Unlock()
+}
+
+// letGo releases the writers that wait on the synchronous link (call it at
+// quiescence); it reports whether there were any.
+func (l *link) letGo() bool {
+	l.mu.Lock()
+	b := l.blocked
+	l.blocked = nil
+	l.mu.Unlock()
+	for _, ch := range b {
+		close(ch)
+	}
+	return len(b) > 0
 }
 
 func (l *link) release() {
@@ -788,7 +833,21 @@ func runHistory(h history, tr *trace) {
 				tr.obs("CB %s %s %s qos=%d retain=%d dup=%d mid=%d", ev.id, vh.HexS(topic), vh.Hex(p.Data),
 					p.QOS, b2i(p.Retain), b2i(p.DUP()), p.MessageID())
 			}
+			if ev.sync {
+				lk.setSync(true)
+			}
 			spawn(func() { tr.obs("RET %s %s", ev.id, classify(ev.call(c, handler))) })
+			if ev.sync {
+				// settle, let the blocked writers go, settle again ... (all at one virtual instant)
+				for i := 0; i < 1000; i++ {
+					synctest.Wait()
+					if !lk.letGo() {
+						break
+					}
+				}
+				lk.setSync(false)
+				lk.letGo()
+			}
 		case "BPUB":
 			br.publish(ev.pub)
 		case "BBURST":
